@@ -478,6 +478,11 @@ pub fn terminal_checks(sim: &mut Sim, snap: &VerifSnapshot, m: Mon, ex: &mut Exe
                     }
                 }
                 let present_ok = g.jobs[j].kind != Kind::O || cfg.present(j);
+                // "no failed attempt has touched it since": a failing or interrupted Output job leaves
+                // CORRUPT behind (FailMode::Corrupt), and only a successful execution overwrites it
+                if g.jobs[j].kind == Kind::O && g.jobs[j].parts().iter().any(|p| cfg.disk.get(*p).map(|x| x == "CORRUPT").unwrap_or(false)) {
+                    v.push(viol("C03", "skipped-after-failed-attempt", format!("{} skipped although its last attempt failed or was interrupted (its result is what that attempt left behind)", id)));
+                }
                 if !(has_rec && (edges_ok || ambiguous) && present_ok) {
                     v.push(viol(
                         "C03",
